@@ -327,6 +327,100 @@ func genC20Hostile(r *Rng) *Plan {
 	return p
 }
 
+// genC20Merge: schema-valid profile x certificate combinations that exercise Validate and Merge:
+// subject attribute lists (schema names the parser does not know, optional flags, allowOther),
+// profile extensions with and without content, optional/override in every combination, certificate
+// extensions of the same kinds given as content or raw, empty containers.
+func genC20Merge(r *Rng) *Plan {
+	p := &Plan{Prop: "C20", Seed: r.U64(), GranNs: 1e6, Meta: map[string]string{"arm": "merge"}}
+	attrNames := []string{"C", "CN", "PC", "ST", "L", "STREET", "O", "DC", "OU", "T", "UID", "MAIL", "SERIALNUMBER"}
+	prof := &ProfileSpec{Name: "mp", File: "merge-profile", Ext: Pick(r, []string{"yaml", "json"})}
+	if prof.Ext == "json" {
+		prof.Format = "json"
+	}
+	if r.Chance(3, 4) {
+		n := r.Range(1, 6)
+		for i := 0; i < n; i++ {
+			a := AttrSpec{Attr: Pick(r, attrNames)}
+			if r.Bool() {
+				a.Optional = bp(r.Bool())
+			}
+			prof.Attrs = append(prof.Attrs, a)
+		}
+		if r.Bool() {
+			prof.AllowOther = bp(r.Bool())
+		}
+	}
+	if r.Bool() {
+		prof.Validity = genValSpec(r)
+	}
+	emptyish := []string{"", "{}", "[]", "null"}
+	n := r.Intn(5)
+	for i := 0; i < n; i++ {
+		x := genExt(r, Pick(r, extKinds), true)
+		switch r.Intn(4) {
+		case 0: // no content: the certificate has to override it
+			if x.Kind != "custom" {
+				x.Content, x.Raw = nil, ""
+			}
+		case 1:
+			if x.Kind != "custom" && x.Kind != "ocspNoCheck" {
+				x.Raw = ""
+				if e := Pick(r, emptyish); e != "" {
+					x.Content = json.RawMessage(e)
+				}
+			}
+		}
+		if r.Bool() {
+			x.Optional = bp(r.Bool())
+		}
+		if r.Bool() {
+			x.Override = bp(r.Bool())
+		}
+		prof.Exts = append(prof.Exts, x)
+	}
+	p.Add(Op{K: "put-prof", Prof: prof})
+	root := &EntitySpec{ID: "root", Name: "root", Ext: "yaml", Subject: []RDN{{"CN", "Root"}}}
+	p.Add(Op{K: "put-ent", Spec: root})
+	m := r.Range(1, 3)
+	for i := 0; i < m; i++ {
+		e := &EntitySpec{ID: fmt.Sprintf("m%d", i), Name: fmt.Sprintf("m%d", i), Ext: "yaml", Profile: "mp", Subject: nil}
+		k := r.Range(1, 5)
+		for j := 0; j < k; j++ {
+			e.Subject = append(e.Subject, RDN{Pick(r, []string{"C", "CN", "ST", "L", "STREET", "O", "OU", "SERIALNUMBER", "POSTALCODE", "1.2.3.4"}), Pick(r, words)})
+		}
+		if r.Bool() {
+			e.Issuer = "root"
+		}
+		// extensions of the same kinds as the profile's, plus others
+		for _, px := range prof.Exts {
+			if r.Bool() {
+				x := genExt(r, px.Kind, true)
+				if x.Kind != "custom" && x.Kind != "ocspNoCheck" && r.Chance(1, 4) {
+					x.Raw = ""
+					if e := Pick(r, emptyish); e != "" {
+						x.Content = json.RawMessage(e)
+					} else {
+						x.Content = nil
+					}
+				}
+				if px.Kind == "custom" {
+					x.Oid = px.Oid
+				}
+				e.Exts = append(e.Exts, x)
+			}
+		}
+		e.Exts = append(e.Exts, genExts(r, 2, true)...)
+		if r.Bool() {
+			e.Validity = genValSpec(r)
+		}
+		p.Add(Op{K: "put-ent", Spec: e})
+	}
+	p.Add(Op{K: "run", Flags: DefaultFlags, Tags: []string{"decide"}})
+	p.Add(Op{K: "run", Flags: uint8(r.Intn(32)), Tags: []string{"decide"}})
+	return p
+}
+
 func genC20States(r *Rng) *Plan {
 	base, _ := genC11Base(r)
 	base.Prop = "C20"
@@ -456,8 +550,10 @@ func exploreC20(t *testing.T, seed uint64, idx int, tier string, sink *Sink) {
 	switch idx % 8 {
 	case 0, 1, 2:
 		plan = genC20Corrupt(r)
-	case 3, 4, 5:
+	case 3, 4:
 		plan = genC20Hostile(r)
+	case 5:
+		plan = genC20Merge(r)
 	case 6:
 		plan = genC20States(r)
 	default:
